@@ -372,10 +372,11 @@ func (c *Ctx) c17Replace() {
 				return
 			}
 			n++
+			if underNilEdge(in) {
+				return // guarded where it stands (in Deliver or in a helper that emits itself)
+			}
 			if g == deliver || g.Parent() != nil {
-				if !underNilEdge(in) {
-					bad = p.InstrPos(call)
-				}
+				bad = p.InstrPos(call)
 				return
 			}
 			// in a helper: every call site must be under the nil edge, or pass constants that
